@@ -163,6 +163,15 @@ pub fn gen_workload(sub: u64) -> Workload {
             output.push(0);
             output.extend_from_slice(b"foo after the NUL\n");
         }
+        if !abandoned && kind != "zreal" && rng.chance(1, 8) {
+            // the command's output is UTF-16 with a byte-order mark: it is transcoded exactly
+            // like a file with those bytes
+            let mut enc = vec![0xFF, 0xFE];
+            for u in String::from_utf8_lossy(&output).encode_utf16() {
+                enc.extend_from_slice(&u.to_le_bytes());
+            }
+            output = enc;
+        }
         files.push(FileScript { path: format!("{dir}file{i}.{ext}"), output, fate, through_child });
     }
     Workload { kind, files, flags, early_stop: early }
